@@ -135,7 +135,7 @@ Answers(c, isStream) ==
      (IF (pend[c] < cfg.maxPend \/ c \in NeverSet) /\ c # cfg.x THEN {[r |-> "pending", ok |-> TRUE]} ELSE {})
   \cup (IF c \in NeverSet THEN {} ELSE
         IF isStream
-          THEN (IF nit[c] < cfg.maxItems \/ c = cfg.x THEN {[r |-> "some", ok |-> TRUE]} ELSE {})
+          THEN (IF nit[c] < cfg.maxItems \/ (c = cfg.x /\ nit[c] < cfg.maxX) THEN {[r |-> "some", ok |-> TRUE]} ELSE {})
                \cup (IF c # cfg.x THEN {[r |-> "none", ok |-> TRUE]} ELSE {})
           ELSE {[r |-> "ready", ok |-> TRUE]} \cup (IF cfg.fallible THEN {[r |-> "ready", ok |-> FALSE]} ELSE {}))
 
